@@ -577,10 +577,6 @@ fn reduced_alphabet() -> Vec<Op> {
     ops
 }
 
-struct ExOut {
-    o: HistOutcome,
-}
-
 pub fn run(ctx: &Ctx) {
     ctx.set_rule("bounded-exhaustive: every history [h], [h, h2], [h, restore, h2] over a reduced alphabet of 72 scripted handle_layer calls on one layer (metadata type V1/V2 x strategy keep/update/recreate/error x migrate recreate/replace/error x create+update results rich/plain/error) = 10 440 histories; sampled: histories of handle_layer calls over 3 layer names interleaved with simulated lifecycle restores; the Layer implementation is fully scripted per call: types (8 flag combinations), metadata type {generic, V1, V2} (alternating types reach the migration path after restores), existing_layer_strategy in {keep, update, recreate, error}, migrate_incompatible_metadata in {recreate, replace with a valid value, error}, create/update returning metadata, env None | Some(entries over all/build/launch/process with byte-string names), 0..3 exec.d programs, 0..3 SBOMs, plain files written into the layer path (also bin/ lib/ include/ pkgconfig/), or an error. Oracle after EVERY call: callback log (which callbacks, once, in order, with which metadata/path, create on an empty directory) == model; Err iff a callback returned Err; disk == model (files bytewise via an independent env renderer, content metadata via Python tomllib, SBOMs); other layers byte-identical; returned LayerData (name, path, types, metadata, env applied for all scopes incl. per-process and unknown process to 3 starting envs, incl. implicit layer paths) == disk. Non-trivial: >= 2 handle_layer calls on the same name separated by a restore, with a layer result that carried a per-process env entry, an SBOM or an exec.d program; distinct = hash of the operation list.");
     ctx.set_exhaustive(true);
@@ -601,9 +597,13 @@ pub fn run(ctx: &Ctx) {
         }
     }
     ctx.class_n("exhaustive:histories", hs.len() as u64);
-    let outs = crate::core::par_map(&hs, crate::core::ncpu(), |h| ExOut { o: run_history(&scratch.path, h) });
-    for (h, e) in hs.iter().zip(outs) {
-        let o = e.o;
+    let chunks: Vec<&[Vec<Op>]> = hs.chunks(hs.len().div_ceil(crate::core::ncpu())).collect();
+    let outs: Vec<Vec<crate::histworker::Outcome>> = crate::core::par_map(&chunks, crate::core::ncpu(), |chunk| {
+        let mut w = crate::histworker::HistWorker::new("c02", 3, &scratch.path);
+        chunk.iter().map(|h| w.run(&history_json(h))).collect()
+    });
+    let flat: Vec<(&Vec<Op>, crate::histworker::Outcome)> = chunks.iter().flat_map(|c| c.iter()).zip(outs.into_iter().flatten()).collect();
+    for (h, o) in flat {
         ctx.eval();
         ctx.extra_add("steps_executed", o.steps as u64);
         for c in &o.classes {
@@ -619,8 +619,9 @@ pub fn run(ctx: &Ctx) {
         }
     }
     let thorough = ctx.tier == crate::core::Tier::Thorough;
+    let worker = RefCell::new(crate::histworker::HistWorker::new("c02", 3, &scratch.path));
     ctx.run_prop("histories", history_strategy(if thorough { 9 } else { 5 }), ctx.tier.pick(1500, 30_000), |h| history_json(h), |h| {
-        let o = run_history(&scratch.path, h);
+        let o = worker.borrow_mut().run(&history_json(h));
         ctx.eval();
         ctx.extra_add("steps_executed", o.steps as u64);
         for c in &o.classes {
@@ -642,8 +643,7 @@ pub fn run(ctx: &Ctx) {
 
 pub fn replay(ctx: &Ctx, _sub: &str, case: &Value) {
     let scratch = Scratch::new("c02r");
-    let h: Vec<Op> = case.as_array().unwrap().iter().map(op_from_json).collect();
-    let o = run_history(&scratch.path, &h);
+    let o = crate::histworker::HistWorker::new("c02", 3, &scratch.path).run(case);
     ctx.eval();
     if let Some(f) = o.fail {
         ctx.check_case("replay", Err(f), || case.clone());
